@@ -89,6 +89,23 @@ func (c Ext4Cfg) predicate() string {
 	}
 	if c.InodeCount > 0 && c.InodeCount < 64 {
 		parts = append(parts, "tiny-inode-count")
+	} else if c.InodeCount > 0 {
+		parts = append(parts, "explicit-inode-count")
+	}
+	if c.SPB != 0 {
+		parts = append(parts, fmt.Sprintf("explicit-block-size-%d", int(c.SPB)*512))
+	}
+	if c.InodeRatio != 0 {
+		parts = append(parts, "explicit-inode-ratio")
+	}
+	if c.LogFlex != 0 {
+		parts = append(parts, "explicit-log-flex")
+	}
+	if c.ReservedPct != 0 {
+		parts = append(parts, "explicit-reserved-pct")
+	}
+	if c.Start != 0 {
+		parts = append(parts, "non-zero-start")
 	}
 	if len(parts) == 0 {
 		return "default-features"
@@ -155,13 +172,106 @@ func fsckClass(out string) string {
 		if strings.HasSuffix(l, "? no") {
 			l = strings.TrimSuffix(l, "? no")
 		}
-		c := classifyProblem(l)
-		if len(c) > 60 {
-			c = c[:60]
+		// keep the kind of complaint, drop lists of numbers and ranges
+		if i := strings.Index(l, ":  "); i > 0 {
+			l = l[:i]
 		}
-		return c
+		if i := strings.Index(l, "("); i > 0 {
+			l = l[:i]
+		}
+		var words []string
+		for _, w := range strings.Fields(l) {
+			if strings.ContainsAny(w, "0123456789") {
+				continue
+			}
+			words = append(words, strings.Trim(w, ".,:"))
+			if len(words) == 7 {
+				break
+			}
+		}
+		return strings.Join(words, "_")
 	}
 	return "no-output"
+}
+
+// minimizeCfg resets parameters to their defaults one at a time as long as the fresh image is
+// still rejected with the same kind of complaint: what remains is the cause predicate.
+func minimizeCfg(cfg Ext4Cfg, kind string, scratch string) Ext4Cfg {
+	fails := func(c Ext4Cfg) bool {
+		img := filepath.Join(scratch, "min-"+core.Hash(c)+".img")
+		st, err := monstore.NewFile(img, c.Start+c.Size+1<<20)
+		if err != nil {
+			return false
+		}
+		defer func() { st.Destroy(); os.Remove(img) }()
+		var cerr error
+		if pi := core.Guard(func() { _, cerr = ext4.Create(file.New(st, false), c.Size, c.Start, 512, c.params()) }); pi != nil || cerr != nil {
+			return false
+		}
+		ok, out, e := e2fsck(img, c.Start)
+		return e == nil && !ok && fsckClass(out) == kind
+	}
+	cur := cfg
+	for changed := true; changed; {
+		changed = false
+		try := func(c Ext4Cfg) {
+			if !changed && fails(c) {
+				cur = c
+				changed = true
+			}
+		}
+		for i := range cur.Off {
+			c := cur
+			c.Off = append(append([]string(nil), cur.Off[:i]...), cur.Off[i+1:]...)
+			try(c)
+		}
+		for i := range cur.On {
+			c := cur
+			c.On = append(append([]string(nil), cur.On[:i]...), cur.On[i+1:]...)
+			try(c)
+		}
+		if cur.BPG != 0 {
+			c := cur
+			c.BPG = 0
+			try(c)
+		}
+		if cur.InodeCount != 0 {
+			c := cur
+			c.InodeCount = 0
+			try(c)
+		}
+		if cur.InodeRatio != 0 {
+			c := cur
+			c.InodeRatio = 0
+			try(c)
+		}
+		if cur.LogFlex != 0 {
+			c := cur
+			c.LogFlex = 0
+			try(c)
+		}
+		if cur.ReservedPct != 0 {
+			c := cur
+			c.ReservedPct = 0
+			try(c)
+		}
+		if cur.Start != 0 {
+			c := cur
+			c.Start = 0
+			try(c)
+		}
+		if cur.Label != "" {
+			c := cur
+			c.Label = ""
+			try(c)
+		}
+		if cur.SPB != 0 {
+			c := cur
+			c.SPB = 0
+			try(c)
+		}
+	}
+	return cur
 }
 
 func runExt4Case(prop string, c core.Case, env *core.Env) core.Result {
@@ -184,6 +294,9 @@ func runExt4Case(prop string, c core.Case, env *core.Env) core.Result {
 	} else {
 		st = monstore.NewMemFilled(devSize, uint64(c.Seed)|1, monstore.Range{Off: cfg.Start, End: cfg.Start + cfg.Size})
 	}
+	if prop == "C03" {
+		st.SetAllowed(monstore.Range{Off: cfg.Start, End: cfg.Start + cfg.Size})
+	}
 	replayCase := func(ops []fsdrive.Op) core.Case {
 		rc := ec
 		rc.Ops = ops
@@ -205,13 +318,29 @@ func runExt4Case(prop string, c core.Case, env *core.Env) core.Result {
 	res.Count("create.accepted", 1)
 	res.Mark("config " + cfg.class())
 	drv := &fsdrive.Driver{
-		Cfg:   fsdrive.Cfg{Prefix: prop + "/ext4", FoldCase: false, Symlinks: true, Attrs: true, NoCompare: prop == "C05", RootPath: "."},
+		Cfg:   fsdrive.Cfg{Prefix: prop + "/ext4", FoldCase: false, Symlinks: true, Attrs: true, NoCompare: prop == "C05" || prop == "C03", RootPath: "."},
 		FS:    fs,
 		Model: reftree.New(false),
 		Res:   &res,
 	}
 	drv.Witness = func() any { return cfg }
 	drv.Replay = replayCase
+	if prop == "C03" {
+		failKey := func(key, detail string) {
+			hist := append([]fsdrive.Op(nil), drv.History...)
+			res.FailReplay(key, detail, map[string]any{"cfg": cfg, "history": hist}, replayCase(hist))
+		}
+		if !c03Report(&res, st, "ext4", cfg.Start, cfg.Size, "Create", failKey) {
+			return res
+		}
+		drv.AfterOp = func(op fsdrive.Op, e error) {
+			if !c03Report(&res, st, "ext4", cfg.Start, cfg.Size, op.Kind, failKey) {
+				drv.Diverged = true
+			}
+		}
+		defer c03Final(&res, st, "ext4", cfg.Start, cfg.Size, failKey)
+		res.Mark("ext4")
+	}
 	fsckRuns := 0
 	uncleanAtCreate := false
 	fsck := func(when string, op fsdrive.Op, opErr error) bool {
@@ -232,7 +361,9 @@ func runExt4Case(prop string, c core.Case, env *core.Env) core.Result {
 		rule := "unclean-after-" + op.Kind
 		if op.Kind == "" {
 			rule = "unclean-after-create"
-			cause = cause + "/" + cfg.predicate()
+			min := minimizeCfg(cfg, cause, env.Scratch)
+			res.Count("create.minimizations", 1)
+			cause = cause + "/" + min.predicate()
 			uncleanAtCreate = true
 		} else if opErr != nil {
 			rule += "-refused"
